@@ -50,7 +50,8 @@ Proof. exact import_written_var. Qed.
    section or key (doc_ok, the model's form of configparser's Duplicate*Error).  Covered: VAR / DOMAIN / ARRAY /
    RECORD / CompactSubObj objects (name lists sorted, possibly sparse), all attributes of [described_var],
    'sub'/'Sub' and upper/lower-case section names, missing ObjectType, comments, node id explicit / from file /
-   absent, bit rate, the extra sections (FileInfo, DummyUsage).  Left to the correspondence: DeviceInfo
+   absent, bit rate, the extra sections (FileInfo, DummyUsage), and [DeviceInfo] / [DeviceComissioning] / [Comments]
+   written before OR after the object sections (dd_tail).  Left to the correspondence: DeviceInfo
    (see C08_devinfo_table), CANFestival data type > 0x1B indirection, DummyUsage entries equal to 1. *)
 Theorem C08_import_of_written_partial : forall d nid,
   dd_devinfo d = None -> Forall (odesc_ok (node_id_in_force d nid)) (dd_objects d) -> doc_ok (write d) = true ->
